@@ -12,17 +12,17 @@ PLAN = {
                 thorough=[("rt", "release", 1500000), ("rt", "checked", 300000)],
                 assumptions=["input/option space is sampled by the seeded workload, not enumerated",
                              "PcmModel (harness) is the single-copy log"]),
-    "C02": dict(level="exploration", rule=RT_RULE + "; the judge is refflac only",
-                quick=[("rt", "release", 40000)],
-                thorough=[("rt", "release", 1500000), ("rt", "checked", 200000)],
+    "C02": dict(level="exploration", rule=RT_RULE + "; the judge is refflac only; scenario rawrt does the same for raw frame streams of the stream writer",
+                quick=[("rt", "release", 40000), ("rawrt", "release", 10000)],
+                thorough=[("rt", "release", 1500000), ("rt", "checked", 200000), ("rawrt", "release", 400000)],
                 assumptions=["refflac (written from RFC 9639, shares no code with the crate) is correct"]),
-    "C09": dict(level="exploration", rule=RT_RULE,
-                quick=[("rt", "release", 40000)],
-                thorough=[("rt", "release", 1500000), ("rt", "checked", 200000)],
+    "C09": dict(level="exploration", rule=RT_RULE + "; scenario c09big = 932100 frames with a seek point requested per frame (more than a table can hold)",
+                quick=[("rt", "release", 40000), ("c09big", "release", 1)],
+                thorough=[("rt", "release", 1500000), ("rt", "checked", 200000), ("c09big", "release", 1), ("c09big", "checked", 1)],
                 assumptions=["frame boundaries come from refflac"]),
-    "C19": dict(level="exploration", rule=RT_RULE,
-                quick=[("rt", "release", 40000)],
-                thorough=[("rt", "release", 1500000)],
+    "C19": dict(level="exploration", rule=RT_RULE + "; scenario rawrt applies the bound to raw stream-writer frames",
+                quick=[("rt", "release", 40000), ("rawrt", "release", 10000)],
+                thorough=[("rt", "release", 1500000), ("rawrt", "release", 400000)],
                 assumptions=["frame boundaries come from refflac"]),
     "C17": dict(level="exploration", rule=RT_RULE,
                 quick=[("rt", "release", 30000), ("dmg", "release", 150), ("dmgcat", "release", 150)],
@@ -142,4 +142,5 @@ PLAN = {
                 quick=[("c11", "release", 20000), ("c11flips", "release", 150)],
                 thorough=[("c11", "release", 1000000), ("c11", "checked", 100000), ("c11flips", "release", 8000)],
                 assumptions=["value space of blocks is sampled, not enumerated (pure-input quantifier)"]),
+    "C18": dict(external="c18check"),
 }
